@@ -3296,9 +3296,11 @@ AnalyserExternalVariablePtrs::const_iterator Analyser::AnalyserImpl::findExterna
 {
     return std::find_if(mExternalVariables.begin(), mExternalVariables.end(), [=](const auto &ev) {
         auto variable = ev->variable();
+        auto component = owningComponent(variable);
 
-        return (owningModel(variable) == model)
-               && (owningComponent(variable)->name() == componentName)
+        return (component != nullptr)
+               && (owningModel(variable) == model)
+               && (component->name() == componentName)
                && (variable->name() == variableName);
     });
 }
